@@ -362,7 +362,7 @@ def run(rng, res, tier, shard, nshards):
     import maltoolbox.file_utils as fu
     reach = Reach()
     for fn in ('_to_dict', 'asset_to_dict', 'association_to_dict', 'attacker_to_dict', 'save_to_file'):
-        reach.add('Model.' + fn, getattr(Model, fn))
+        reach.add('Model.' + fn, getattr(Model, fn, None))
     reach.add('Model._from_dict', Model._from_dict.__func__)
     reach.add('file_utils.save_dict_to_file', fu.save_dict_to_file)
     reach.start()
